@@ -6,6 +6,7 @@ import (
 	"encoding/json"
 	"flag"
 	"fmt"
+	"golang.org/x/tools/go/ssa"
 	"os"
 	"path/filepath"
 	"runtime/debug"
@@ -54,8 +55,12 @@ func rmain() (code int) {
 	)
 	ov := overlayFlag{}
 	flag.Var(ov, "overlay", "repo-relative-path=file: analyse with the file's contents replaced (may repeat)")
+	dumpRef := flag.Bool("dump-reffuncs", false, "Print reffuncs.go for the tree at -repo and exit")
 	flag.Parse()
 	start := time.Now()
+	if *dumpRef {
+		return dumpRefFuncs(*repo)
+	}
 
 	defer func() {
 		if e := recover(); nil != e {
@@ -117,6 +122,18 @@ func rmain() (code int) {
 		return 2
 	}
 	r := NewReport(*prop, p)
+	if nil != p.Flat && 0 != len(p.Helpers)+len(p.Flat.Skipped) {
+		r.Note("helper functions (not in the reference structure) folded into their callers before analysis: %s; %d call sites inlined, %d go statements and %d method values turned into function literals; left as calls: %s",
+			strings.Join(p.Helpers, ", "), p.Flat.Inlined, p.Flat.GoTurned, p.Flat.Bound, strings.Join(p.Flat.Skipped, "; "))
+		if "" != os.Getenv("CRS_FLATDEBUG") {
+			fmt.Printf("FLATTEN helpers=%v inlined=%d go=%d bound=%d skipped=%v\n", p.Helpers, p.Flat.Inlined, p.Flat.GoTurned, p.Flat.Bound, p.Flat.Skipped)
+			for _, f := range p.funcs {
+				if nil == f.Parent() {
+					ssa.CheckFlattened(f, os.Stdout)
+				}
+			}
+		}
+	}
 	d.Run(p, r)
 	if *dumpObs {
 		for _, o := range r.Obs {
@@ -183,5 +200,28 @@ func doReplay(path string, r *Report) int {
 		fmt.Printf("VIOLATION property=%s replay=%s\n", r.Property, path)
 		return 1
 	}
+	return 0
+}
+
+// dumpRefFuncs prints the reference table of top-level functions.
+func dumpRefFuncs(repo string) int {
+	abs, _ := filepath.Abs(repo)
+	p, err := Load(LoadOpts{Repo: abs, NoFlatten: true})
+	if nil != err {
+		fmt.Printf("ERROR %s\n", err)
+		return 2
+	}
+	var out []string
+	for _, fn := range p.funcs {
+		if nil == fn.Parent() {
+			out = append(out, fn.String())
+		}
+	}
+	sort.Strings(out)
+	fmt.Println("package main\n\n// reffuncs.go: the top-level functions of the reference tree (/repo at the\n// time the rules were confirmed).  A module function not listed here is a\n// helper: its static calls are folded into the callers before analysis.\n// Regenerate with `bin/crscheck -dump-reffuncs > checker/reffuncs.go` after\n// confirming the rules on a new reference tree.\n\nvar refFuncs = map[string]bool{")
+	for _, l := range out {
+		fmt.Printf("\t%q: true,\n", l)
+	}
+	fmt.Println("}")
 	return 0
 }
